@@ -322,8 +322,88 @@ def c16_huge_if_cases(rng):
     return cases
 
 
+def c16_copy_cases(tier, rng):
+    """a tracker that is a COPY of another one shares nothing with it: after `t = s`, updates, removals and clears of s (also from the
+    other side) leave t exactly as it was when the copy was made (element objects held through shared pointers would be shared)"""
+    cases = []
+    for _ in range(20 if tier == "quick" else 200):
+        ops = []
+        n = 0
+
+        def pk(kind, dev, ifid):
+            nonlocal n
+            n += 1
+            ops.append(st_packet(rng, kind, dev, ifid, 100 + n).line("p%d" % n))
+            return "p%d" % n
+        for d in (1, 2):
+            ops.append("st s update " + pk("cm", d, 0))
+            for i in (10, 20):
+                ops.append("st s update " + pk("if", d, i))
+        ops += ["st s dump", "st t copyfrom s", "st t dump"]
+        for _k in range(rng.randrange(2, 6)):
+            r = rng.random()
+            which = rng.choice(["s", "s", "t"])
+            if r < 0.5:
+                ops.append("st %s update %s" % (which, pk("if", rng.choice([1, 2]), rng.choice([10, 20, 30]))))
+            elif r < 0.7:
+                ops.append("st %s update %s" % (which, pk("cm", rng.choice([1, 2, 3]), 0)))
+            elif r < 0.85:
+                ops.append("st %s rmif %d %d" % (which, rng.choice([1, 2]), rng.choice([10, 20])))
+            else:
+                ops.append("st %s rmdev %d" % (which, rng.choice([1, 2])))
+            ops += ["st s dump", "st t dump"]
+        cases.append(Case("c16copy", ops, nontrivial=True, tags=("copied-tracker",), meta={"copycase": True}))
+    return cases
+
+
+def pred_c16_copy(case, impl):
+    """each tracker equals ITS OWN latest-message map: the map of s at the moment of the copy, plus the operations applied to that tracker
+    only.  Judged by replaying every operation on the tracker it names; a dump must show exactly the devices / interfaces / latest packet
+    ids of that tracker's own history."""
+    spec = {"s": {}, "t": {}}
+    pkinfo = {}
+    for o, l in zip(case.ops, impl):
+        if l.startswith("CRASH"):
+            return False
+        w = o.split(" ")
+        if w[0] == "pkt":
+            data = b"" if w[12] == "-" else bytes.fromhex(w[12])
+            pkinfo[w[1]] = (w[2], int(w[4]), data, w[7])
+        elif w[0] == "st" and w[2] == "copyfrom":
+            import copy
+            spec[w[1]] = copy.deepcopy(spec[w[3]])
+        elif w[0] == "st" and w[2] == "update":
+            ty, dev, data, ts = pkinfo[w[3]]
+            sp = spec[w[1]]
+            if dev in sp:
+                if ty == "0302":
+                    sp[dev][1][int.from_bytes(data[0:4], "big")] = ts
+                elif ty == "0301":
+                    sp[dev] = (ts, sp[dev][1])
+            elif ty == "0301":
+                sp[dev] = (ts, {})
+        elif w[0] == "st" and w[2] == "rmdev":
+            spec[w[1]].pop(int(w[3]) % 65536, None)
+        elif w[0] == "st" and w[2] == "rmif":
+            if int(w[3]) % 65536 in spec[w[1]]:
+                spec[w[1]][int(w[3]) % 65536][1].pop(int(w[4]), None)
+        elif w[0] == "st" and w[2] == "dump":
+            d = parse_dump(l)
+            if d is None:
+                return False
+            sp = spec[w[1]]
+            if sorted(x[0] for x in d) != sorted(sp.keys()):
+                return False
+            for dev, pkv, ifs in d:
+                if pkv.split(":")[5] != sp[dev][0]:
+                    return False
+                if sorted((i, v.split(":")[5]) for i, v in ifs) != sorted(sp[dev][1].items()):
+                    return False
+    return True
+
+
 def gen_c16(tier, rng):
-    cases = c16_huge_if_cases(rng)
+    cases = c16_huge_if_cases(rng) + c16_copy_cases(tier, rng)
     devs = [1, 2, 3]
     ifs = [10, 20]
     # alphabet of operations; packets are defined on the fly so that every update carries a distinct packet
@@ -429,6 +509,8 @@ def c16_view(case, lines):
 def pred_c16(case, impl, model, ctx):
     """implementation only, against the latest-message-map specification replayed in Python, and index results against the
     implementation's own dump: the index returned for id x is where x sits, or the count"""
+    if case.meta.get("copycase"):
+        return pred_c16_copy(case, impl)
     spec = {}
     pk = {}
     hdrs = {}
